@@ -4,7 +4,9 @@
    bodies inside [eval_un] are regenerated from GTC/lib.py on every run. *)
 From Coq Require Import ZArith List Bool Reals.
 From Coquelicot Require Import Coquelicot.
-From GTCV Require Import Num RNum Vector VectorFacts Opres KTypes Kernel DerivTable ChainRule.
+From Coq Require Import Lra Lia.
+From GTCV Require Import Num RNum Vector VectorFacts Opres KTypes Kernel DerivTable PowInt ChainRule.
+From GTCV.gen Require Import Gen_lib_real.
 Import ListNotations.
 Local Open Scope R_scope.
 
@@ -47,6 +49,30 @@ Proof.
   intros k lf xk Hlf Hx Hu. exact (reporting_sound U I e0 s y (sem Fi e) k lf xk Hat Hd Hlf Hx Hu).
 Qed.
 Print Assumptions C02_chain_rule.
+
+(* (2b) ** beyond positive bases.  `regular` asks of a ** node either a positive base (any
+   exponent, uncertain or not) or a plain integer-valued exponent -- and then NOTHING of the base:
+   x ** n is covered by C02_chain_rule for negative x, and for x = 0 when n >= 0.  There
+   sem is Python's value (repeated multiplication/division), and the derivative the theorem
+   delivers is that of t |-> t ** n. *)
+Theorem C02_integer_power_any_base :
+  forall (Fi : nat -> env -> R) (e0 : env) (e1 : Kernel.expr RNum) (n : Z),
+    regular Fi e0 e1 -> regular Fi e0 (EBin RNum B_pow e1 (ENum RNum (IZR n))).
+Proof. intros Fi e0 e1 n H. simpl. repeat split; auto. right. split; [reflexivity|]. exists n; reflexivity. Qed.
+Print Assumptions C02_integer_power_any_base.
+
+Theorem C02_integer_power_meaning :
+  forall (Fi : nat -> env -> R) (e0 : env) (e1 : Kernel.expr RNum) (n : Z),
+    sem Fi e1 e0 <> 0 \/ (0 <= n)%Z ->
+    sem Fi (EBin RNum B_pow e1 (ENum RNum (IZR n))) e0 = powerRZ (sem Fi e1 e0) n /\
+    forall (A : R -> R) t0 da, A t0 = sem Fi e1 e0 -> is_derive A t0 da ->
+      is_derive (fun t => pow_sem (A t) (IZR n)) t0 (IZR n * powerRZ (sem Fi e1 e0) (n - 1) * da).
+Proof.
+  intros Fi e0 e1 n H. split.
+  - cbn [sem binop_R]. apply pow_sem_int. exact H.
+  - intros A t0 da EA HA. rewrite <- EA. apply is_derive_pow_sem_int; [exact HA|rewrite EA; exact H].
+Qed.
+Print Assumptions C02_integer_power_meaning.
 
 (* (3) an input the result does not carry has component exactly 0 *)
 Theorem C02_absent_zero :
@@ -105,4 +131,24 @@ Proof.
     + exfalso. unfold get_real, resolve in H. simpl in H. destruct i; discriminate.
   - simpl. tauto.
   - eexists. reflexivity.
+Qed.
+
+(* non-vacuity of (2b): (-x1) ** 3 at x1 = 2 -- a NEGATIVE base; regular, evaluates, value -8 *)
+Definition neg_tree : Kernel.expr RNum := EUn RNum U_neg (EVar RNum 0).
+Definition pw_tree : Kernel.expr RNum := EBin RNum B_pow neg_tree (ENum RNum (IZR 3)).
+
+Example C02_negative_base_nonvacuous :
+  regular ex_Fi ex_e0 pw_tree /\ sem ex_Fi pw_tree ex_e0 = -8 /\
+  exists y, eval_un RNum ex_state pw_tree = Ok (@OpdU RNum y) /\ ux y = -8.
+Proof.
+  split; [|split].
+  - simpl. repeat split; auto. right. split; [reflexivity|]. exists 3%Z. reflexivity.
+  - cbn [sem pw_tree neg_tree unop_R binop_R ex_Fi]. rewrite pow_sem_int by (right; lia). unfold ex_e0. simpl. lra.
+  - unfold pw_tree. cbn [eval_un].
+    assert (E1 : exists o, eval_un RNum ex_state neg_tree = Ok (@OpdU RNum o) /\ ux o = -(2)).
+    { eexists. split; reflexivity. }
+    destruct E1 as [o [E1 Ho]]. rewrite E1. cbn [bind apply_bin g_bin_un]. rewrite Ho.
+    assert (Hm : -(2) <> 0) by lra. assert (H3 : 3%Z <> 0%Z) by lia. assert (H31 : 3%Z <> 1%Z) by lia.
+    rewrite (g_pow_num_int_eval (-(2)) 3 Hm H3 H31). cbn [bind realize]. eexists. split; [reflexivity|].
+    cbn. change (Pos.to_nat 3) with 3%nat. simpl pow. lra.
 Qed.
